@@ -8,6 +8,7 @@ mod bits_engine;
 mod comps;
 mod sched;
 mod sched_borrow;
+mod sched_reserve;
 mod util;
 mod world_engine;
 
@@ -151,6 +152,16 @@ fn main() {
             let cap: usize = arg(&args, "--cap").and_then(|s| s.parse().ok()).unwrap_or(usize::MAX);
             sched_borrow::gen(&out, threads, maxlen, shard, nshards, cap);
         }
+        ("sched-reserve", "gen") => {
+            let out = arg(&args, "--out").expect("--out DIR");
+            let threads: usize = arg(&args, "--threads").and_then(|s| s.parse().ok()).unwrap_or(2);
+            let maxlen: usize = arg(&args, "--maxlen").and_then(|s| s.parse().ok()).unwrap_or(2);
+            let shard: usize = arg(&args, "--shard").and_then(|s| s.parse().ok()).unwrap_or(0);
+            let nshards: usize = arg(&args, "--nshards").and_then(|s| s.parse().ok()).unwrap_or(1);
+            let cap: usize = arg(&args, "--cap").and_then(|s| s.parse().ok()).unwrap_or(usize::MAX);
+            sched_reserve::gen(&out, threads, maxlen, shard, nshards, cap);
+        }
+        ("sched-reserve", "replay") => sched_reserve::replay(args.get(3).expect("ops file")),
         ("sched-borrow", "replay") => sched_borrow::replay(args.get(3).expect("ops file")),
         ("world", "replay") => {
             let file = args.get(3).expect("ops file");
